@@ -38,8 +38,14 @@ def run(tier):
     rnd = random.Random(common.seed())
     bd = common.build("plain")
     wd = common.workdir("c02")
-    r = common.tlc("ReaderImpl", "MC_ReaderStream.cfg", workers=8, timeout=900)
-    ck.require_ok("ReaderImpl/MC_ReaderStream.cfg", r); ck.add_tlc("ReaderImpl/MC_ReaderStream.cfg (SequentialPrefix, EveryCallReturns)", r)
+    # R1: comp_read on files that may end before their index does (truncated, or an index promising more than is there);
+    # the variant in which a short read still meant "end of the data" must exhibit the silent truncation
+    for cfgname, expect in (("MC_ReaderStream_trunc.cfg", True), ("MC_ReaderUnit_trunc.cfg", True), ("MC_ReaderUnit_eofok.cfg", False), ("MC_ReaderStream_eofok.cfg", False)):
+        r = common.tlc("ReaderImpl", cfgname, workers=8, timeout=1500)
+        if r.ok != expect:
+            raise Broken("ReaderImpl/%s: expected %s, got %s" % (cfgname, "no violation" if expect else "the documented counterexample (NoSilentTruncation)", r.violation))
+        ck.add_tlc("ReaderImpl/" + cfgname + (" (SequentialPrefix, NoSilentTruncation, NoReleaseBeforeVerify, EveryCallReturns)" if expect else " (silent truncation exhibited, as documented)"), r,
+                   "3 chunks x 3 cells, file lengths {9,7,4,0}, reads 1..4, chunk requests, 4 calls")
     seeds = corpus.seed_files(rnd, big=True) + corpus.special_files(rnd)
     if tier == "quick":
         seeds = rnd.sample(seeds, 10) + corpus.special_files(rnd)[:2]
